@@ -2,12 +2,30 @@
 //! and prints canonical observations. One sub-command per engine.
 mod ast;
 mod codec;
+mod interp;
+mod compile;
+mod frags;
+mod lift;
+mod ext;
+mod eqord;
+mod robust;
 mod sat;
+mod desc;
+mod psbt;
+mod policy;
 mod tables;
+mod tap;
+mod validate;
+mod vgen;
+mod text;
+mod translate;
+mod tree;
 
 fn main() {
     // panics of the library are caught with catch_unwind and reported as observations
-    std::panic::set_hook(Box::new(|_| {}));
+    if std::env::var("VERIF_PANIC_VERBOSE").is_err() {
+        std::panic::set_hook(Box::new(|_| {}));
+    }
     let args: Vec<String> = std::env::args().collect();
     if args.len() < 2 {
         eprintln!("usage: verif-harness <engine> [args]");
@@ -17,6 +35,21 @@ fn main() {
         "tables" => tables::run(&args[2..]),
         "sat" => sat::run(&args[2..]),
         "codec" => codec::run(&args[2..]),
+        "interp" => interp::run(&args[2..]),
+        "compile" => compile::run(&args[2..]),
+        "compile-one" => compile::run_one(&args[2..]),
+        "frags" => frags::run(&args[2..]),
+        "tap" => tap::run(&args[2..]),
+        "desc" => desc::run(&args[2..]),
+        "psbt" => psbt::run(&args[2..]),
+        "lift" => lift::run(&args[2..]),
+        "validate" => validate::run(&args[2..]),
+        "text" => text::run(&args[2..]),
+        "ext" => ext::run(&args[2..]),
+        "eqord" => eqord::run(&args[2..]),
+        "translate" => translate::run(&args[2..]),
+        "policy" => policy::run(&args[2..]),
+        "robust" => robust::run(&args[2..]),
         other => {
             eprintln!("unknown engine {}", other);
             std::process::exit(2);
